@@ -15,7 +15,7 @@ import (
 )
 
 var Spec = engine.Spec{
-	ID: "C13", Run: Run, MapOrders: true, QuickBud: 5 * time.Minute, ThorBud: 20 * time.Minute,
+	ID: "C13", Run: Run, MapOrders: true, QuickBud: 5 * time.Minute, ThorBud: 45 * time.Minute,
 	Technique: "explicit enumeration of a reflection-generated value set (bases + every single-field deviation + permutations + separator-bearing values): all pairs for symmetry / checksum agreement / discrimination / order-insensitivity against a canonical-content reference, all triples for transitivity",
 	Rule:      "value = base message (empty, sparse, fully populated by reflection) with one deviation (set/change/clear scalar, append/drop/change/permute list element, put/delete/change map entry, date +1s/+1ns, recursively in nested persons and external references) or a crafted separator value; case = ordered pair (i,j) or one row of the transitivity matrix",
 	Assume: []string{
